@@ -63,7 +63,8 @@ def run(ctx):
     ctx.scale_if_changed()
     proof_ok = vlib.standard_proof_part(ctx, "props/C02.v", extra_targets=["run/RunManager.vo", "proofs/TasksSrc.vo", "proofs/TasksSrcData.vo", "proofs/TasksSrcRefresh.vo", "proofs/TasksSrcSorting.vo"], translators=["tasks"])
     # start sets larger than any small-set threshold (64, 128): many direct dependants with triangles among them
-    cases = [fan_case(3, 3), fan_case(6, 2), cyc_case(3), cyc_case(6), mc.wide_case(ctx.rng, 66), mc.wide_case(ctx.rng, 131)]
+    cases = [fan_case(3, 3), fan_case(6, 2), cyc_case(3), cyc_case(6), mc.wide_case(ctx.rng, 66), mc.wide_case(ctx.rng, 131),
+             mc.fanin_case(ctx.rng, 40, 5), mc.fanin_case(ctx.rng, 34, 6), mc.fanin_case(ctx.rng, 70, 4)]      # wide fan-IN, expression objects freed and rebuilt
     cases += [mc.gen_history(ctx.rng, ["mixed", "dag", "assign", "windows"][i % 4]) for i in range(ctx.pick(240, 4000))]
     # value types outside the model's domain (floats, numpy arrays, strings, None, ...): trace oracle only
     cases += [mc.gen_history(ctx.rng, ["mixed", "assign"][i % 2], values="mixed") for i in range(ctx.pick(60, 1000))]
